@@ -346,6 +346,95 @@ def c11_slices(tier):
 C11_FATAL = {"repair1:ok", "repair2:ok", "repair3:ok", "repair1:deltas", "repair2:sigma", "repair3:id", "repair3:share",
              "repair3:vs", "repair3:vk", "repair3:min", "sign:ok", "aggregate:ok", "verify:ok", "*:panic"}
 
+# ------------------------------------------------------------------------ C15
+def c15_slices(tier):
+    th = tier == "thorough"
+    sl = []
+    # A: sequences of commit / preprocess calls with a constant, a repeating and a varying source
+    sl.append(dict(name="A_call_sequences", module="C15", invariants=["InvDerivation", "Emit"], consts=consts(
+        7, ShareChoices="{1,3,6}", RandChoices="{1,2}", Calls="{<<1>>, <<1,1>>, <<2>>, <<1,2>>, <<3>>, <<2,1,1>>}" if th
+        else "{<<1>>, <<1,1>>, <<2>>, <<1,2>>}", DomH3="{0,2,5}", EMIT="TRUE")))
+    # B: every share and every nonce value
+    sl.append(dict(name="B_values", module="C15", invariants=["InvDerivation", "Emit"], consts=consts(
+        7, ShareChoices="1..6", RandChoices="{7}", Calls="{<<1>>, <<2>>}" if th else "{<<1>>}", DomH3=ZQ(7), EMIT="TRUE")))
+    # C: 2-byte scalars in a field with q > 256 (share encoding occupies both bytes)
+    sl.append(dict(name="C_q257", module="C15", invariants=["InvDerivation", "Emit"], consts=consts(
+        257, ShareChoices="{1,255,256}", RandChoices="{0,255}", Calls="{<<1>>, <<2>>}", DomH3="{0,256,3}", EMIT="TRUE")))
+    return sl
+
+
+# fresh 32+32 bytes per pair (scripted source consumed exactly), preimage layout (every H3 query is the
+# model's), nonce = H3 output, commitment = G*nonce
+C15_FATAL = {"commit:hiding", "commit:binding", "commit:D", "commit:E", "commit:inner_comm_eq", "preprocess:pairs",
+             "*:rng_unused", "*:rng_overrun", "*:rng_mismatch", "*:oracle_miss", "commit:ok", "preprocess:ok", "*:panic"}
+
+# ------------------------------------------------------------------------ C16
+def c16_slices(tier):
+    th = tier == "thorough"
+    sl = []
+    sl.append(dict(name="A_all_entry_points", module="C16", invariants=["InvBatchOk", "Emit"], consts=consts(
+        7, Probes='{"dealer","dkg1","single","repair","refresh","rr","batch"}', Vals=ZQ(7) if th else "{0,1,3,6}",
+        NZVals="{2,5}", MaxZeros="2", Shapes="{<<2,2>>, <<3,2>>, <<3,3>>, <<4,4>>, <<1,1>>, <<2,3>>}",
+        DomHDKG="{4}", DomHR="{3}", DomH2="{2}", DomH3="{3}", EMIT="TRUE")))
+    sl.append(dict(name="B_t5", module="C16", invariants=["InvBatchOk", "Emit"], consts=consts(
+        11, Probes='{"dealer","dkg1"}', Vals="{0,1,10}" if not th else "{0,1,4,10}", NZVals="{7}", MaxZeros="1",
+        Shapes="{<<5,5>>, <<6,4>>}", DomHDKG="{4}", EMIT="TRUE")))
+    return sl
+
+
+# every listed value equals its own draw (the model's expected values are functions of the scripted draws)
+# and the source is consumed exactly as scripted
+C16_FATAL = {"split:shares", "split:commit", "split:vk", "split:ok", "dkg1:coeffs", "dkg1:commit", "dkg1:R", "dkg1:mu",
+             "dkg1:ok", "single_sign:R", "single_sign:z", "repair1:deltas", "repair1:ok", "refresh_shares:shares",
+             "refresh_shares:commit", "refresh_shares:ok", "rr_new:seed", "rr_new:alpha", "rr_new:ok", "batch:ok",
+             "*:rng_unused", "*:rng_overrun", "*:rng_mismatch", "*:panic"}
+
+# ------------------------------------------------------------------------ C17
+C17_INV = ["InvRegen", "InvParams", "InvHonest", "InvFaulty", "InvFaultyShare", "Emit"]
+
+
+def c17_slices(tier):
+    th = tier == "thorough"
+    base = dict(KeyChoices="{3}", CoeffChoices="{5}", RandChoices="{1}", Msg="<<104,105>>", DomH3="{2,5}",
+                DomH1="{1,5}", DomH2="{3,0}", Modes=MODES3, EMIT="TRUE")
+    sl = []
+    sl.append(dict(name="A_faults", module="C17", invariants=C17_INV, consts=consts(
+        7, Shapes="{<<3,2>>}", IdSets="{{2,3,5}}", MaxExtra="1", SeedChoices="{5,300}",
+        Faults='{"none","seed","comm","share","fixed"}', FixedAlphas="{0,1,4}", DomHR="{0,2,4}" if th else "{2,4}", **base)))
+    sl.append(dict(name="B_all_randomizers", module="C17", invariants=C17_INV, consts=consts(
+        7, Shapes="{<<2,2>>}", IdSets="{{3,5}}", MaxExtra="0", SeedChoices="{5}", Faults='{"none","seed","fixed"}',
+        FixedAlphas=ZQ(7), DomHR=ZQ(7), **dict(base, DomH2=ZQ(7) if th else "{0,3,6}"))))
+    sl.append(dict(name="C_shape_s4", module="C17", invariants=C17_INV, consts=consts(
+        11, Shapes="{<<4,3>>}", IdSets="{{1,2,3,4}, {2,5,7,10}}", MaxExtra="1", SeedChoices="{9}",
+        Faults='{"none","seed","comm","share"}', FixedAlphas="{1}", DomHR="{6}",
+        **dict(base, DomH3="{4}", DomH1="{3}", DomH2="{5}", KeyChoices="{7}", CoeffChoices="{3}"))))
+    return sl
+
+
+C17_FATAL = {"rr_new:ok", "rr_regen:ok", "rr_regen:alpha", "rr_regen:alphaG", "rr_regen:vk2", "rr_new:vk2", "rr_sign:ok",
+             "rr_sign_fixed:ok", "aggregate:ok", "aggregate:culprits", "verify:ok", "*:oracle_miss", "*:panic"}
+
+# ------------------------------------------------------------------------ C19
+C19_INV = ["InvAccept", "InvSingles", "InvSoundness", "Emit"]
+
+
+def c19_slices(tier):
+    th = tier == "thorough"
+    sl = []
+    sl.append(dict(name="A_positions_kinds", module="C19", invariants=C19_INV, timeout=3000, consts=consts(
+        7 if th else 5, Keys="{2,3}", NonceChoices="{3}", MaxItems="3", Kinds='{"ok","z","R","msg","key"}',
+        Blinders=ZQ(7) if th else "{1,4}", DomH2="{1,2}", EMIT="TRUE")))
+    # complementary +d / -d pairs under every pair of blinders (accepted exactly when the blinders repeat)
+    sl.append(dict(name="C_cancelling_pairs", module="C19", invariants=C19_INV, consts=consts(
+        7, Keys="{2}", NonceChoices="{3}", MaxItems="2", Kinds='{"z","R"}', Blinders=ZQ(7), DomH2="{2}", EMIT="TRUE")))
+    sl.append(dict(name="B_four_items", module="C19", invariants=C19_INV, consts=consts(
+        5, Keys="{2}", NonceChoices="{3}", MaxItems="4", Kinds='{"ok","z"}', Blinders="{0,1,4}" if not th else ZQ(5),
+        DomH2="{2}", EMIT="TRUE")))
+    return sl
+
+
+C19_FATAL = {"batch:ok", "batch:singles", "batch:plains", "single_sign:ok", "*:rng_unused", "*:rng_overrun", "*:panic"}
+
 PROPS = {
     "C01": dict(slices=c01_slices, fatal=C01_FATAL, level="model_checking",
                 rule="TLC enumerates every behaviour of the C01 schedule within each slice's constants; "
@@ -395,6 +484,26 @@ PROPS = {
     "C11": dict(slices=c11_slices, fatal=C11_FATAL, level="model_checking",
                 rule="every helper set with t <= |H|, every repaired identifier (existing outside H, or new), all keys and "
                      "polynomials in the value slice, every blinding value in slice B; refused helper lists; replayed on the real library",
+                assumptions=["TLC 1.8.0 and the CommunityModules", "the toy ciphersuite and interpreter in /verif/harness",
+                             "the toy-to-real argument of DESIGN 6.2"]),
+    "C15": dict(slices=c15_slices, fatal=C15_FATAL, level="model_checking",
+                rule="sequences of commit/preprocess calls under constant, repeating and varying scripted sources; every share "
+                     "and every H3 answer in the value slice; the replay requires the exact RNG consumption and H3 preimages",
+                assumptions=["TLC 1.8.0 and the CommunityModules", "the toy ciphersuite and interpreter in /verif/harness",
+                             "the toy-to-real argument of DESIGN 6.2"]),
+    "C16": dict(slices=c16_slices, fatal=C16_FATAL, level="model_checking",
+                rule="one randomised entry point per behaviour with the prescribed draw sequence incl. rejected zero draws; "
+                     "replayed with scripted draws: every secret value must equal its own draw and the source be consumed exactly",
+                assumptions=["TLC 1.8.0 and the CommunityModules", "the toy ciphersuite and interpreter in /verif/harness",
+                             "the toy-to-real argument of DESIGN 6.2"]),
+    "C17": dict(slices=c17_slices, fatal=C17_FATAL, level="model_checking",
+                rule="re-randomized sessions for every seed / explicit randomizer (zero included) in the slice, honest and with one "
+                     "participant given another seed, another commitment set, or an altered share; three detection modes",
+                assumptions=["TLC 1.8.0 and the CommunityModules", "the toy ciphersuite and interpreter in /verif/harness",
+                             "the toy-to-real argument of DESIGN 6.2"]),
+    "C19": dict(slices=c19_slices, fatal=C19_FATAL, level="model_checking",
+                rule="every batch of up to MaxItems items x every position and kind of invalid item x every blinder vector; TLC also "
+                     "counts, per batch, the accepting blinder vectors (exactly q^(n-1) when an item is invalid)",
                 assumptions=["TLC 1.8.0 and the CommunityModules", "the toy ciphersuite and interpreter in /verif/harness",
                              "the toy-to-real argument of DESIGN 6.2"]),
     "C04": dict(slices=c04_slices, fatal=C04_FATAL, level="model_checking",
